@@ -24,6 +24,10 @@ CLAIMS = {
             "Decides that cached reads wait for the bootstrap channel, that the cache is updated before the notification entry of the same "
             "event, the append-only/silent bootstrap phase, lock discipline, copies out, and the teardown-waiter protocol (close/delete "
             "pairing, no overwrite, immediate cancel). Monotonicity under schedules and equality at quiescence are not decided.", "§3 C15"),
+    "C20": ("lockset (incl. helpers must not release the caller's lock) + guard/seal/verify path-cuts on the key storage",
+            "Decides lock discipline, the three mutation guards (zero storage / absent slot / more than one slot, each with a recovered key), "
+            "re-sealing with the verified key after every mutation, and that a key leaves getKey only through an unconditional constant-time "
+            "HMAC verification after version/presence/algorithm checks; canonical hash order. OpenPGP/HMAC semantics are trusted.", "§3 C20"),
     "C19": ("value provenance (fresh-copy) analysis on go/ssa + copy-on-write path-cut + who-may-write for raw maps",
             "Decides that nothing but DeepCopy results enters or leaves the store and the read cache, that every in-place write of the "
             "copy-on-write metadata containers targets storage created in the same call, that the module's DeepCopy implementations copy "
